@@ -3841,3 +3841,110 @@ func ruleHookBeforeStore(prop string) ruleFn {
 		}
 	}
 }
+
+// HOOK-REPLACE (C15): an overwrite by something unscheduled unschedules.
+func ruleHookReplace(w *World, r *Report) {
+	r.Rule("HOOK-REPLACE", "no removal hook runs when a fact is overwritten, so the add hook installed by cron.AddHooks is what unregisters the job of a scheduled rule that is replaced by an ordinary rule or fact: besides the path that schedules, the hook has a path that does not reach ScheduleEvent and on which it looks up what is stored under the id (State.Get) and calls Cronner.Rem.  Without it the replaced rule's job stays in the cron and keeps sending its trigger event", 1)
+	cr := w.Named("cron", "Cronner")
+	st := w.Named("core", "State")
+	ah := w.Func("cron", "AddHooks")
+	n := 0
+	for _, fn := range ah.AnonFuncs {
+		isSched := func(in ssa.Instruction) bool {
+			c := callOf(in)
+			return c != nil && isIfaceMethodCall(c, cr, "ScheduleEvent")
+		}
+		var scheds, rems, gets []ssa.Instruction
+		allInstrs(fn, func(in ssa.Instruction) {
+			c := callOf(in)
+			if c == nil {
+				return
+			}
+			if isSched(in) {
+				scheds = append(scheds, in)
+			}
+			if isIfaceMethodCall(c, cr, "Rem") {
+				rems = append(rems, in)
+			}
+			if isIfaceMethodCall(c, st, "Get") {
+				gets = append(gets, in)
+			}
+		})
+		if len(scheds) == 0 {
+			continue
+		}
+		n++
+		key := "hook=" + fname(fn)
+		found := false
+		for _, rm := range rems {
+			leadsToSched := false
+			for _, s := range scheds {
+				if reachable(fn, rm, s) {
+					leadsToSched = true
+				}
+			}
+			if leadsToSched {
+				continue
+			}
+			for _, g := range gets {
+				if reachable(fn, g, rm) {
+					found = true
+				}
+			}
+		}
+		if found {
+			r.ok("HOOK-REPLACE", key, w.PosOf(rems[0]), "a fact without a schedule that replaces a scheduled rule removes the job")
+		} else if statesUnhookOnOverwrite(w) {
+			r.ok("HOOK-REPLACE", key, w.Pos(fn.Pos()), "every State implementation's Add runs the removal hook itself (alternative design)")
+		} else {
+			r.violation("HOOK-REPLACE", key, w.Pos(fn.Pos()), "the add hook never unregisters: a scheduled rule that is overwritten by an ordinary rule or fact keeps its job")
+		}
+	}
+	if n == 0 {
+		r.exempt("HOOK-REPLACE", "hook=none", w.Pos(ah.Pos()), "no closure of AddHooks calls Cronner.ScheduleEvent: shape not recognised")
+	}
+}
+
+// statesUnhookOnOverwrite: every State implementation's Add reaches (within the type's own methods) a removal-hook call.
+func statesUnhookOnOverwrite(w *World) bool {
+	a := newLocAnchors(w)
+	all, n := true, 0
+	for nt := range a.stateImp {
+		owner := typeKey(nt)
+		add := w.TryMethod(typeRel(nt), nt.Obj().Name(), "Add")
+		if add == nil || stateFactField[owner] == "" {
+			continue
+		}
+		n++
+		seen := map[*ssa.Function]bool{}
+		var has func(fn *ssa.Function) bool
+		has = func(fn *ssa.Function) bool {
+			if seen[fn] {
+				return false
+			}
+			seen[fn] = true
+			found := false
+			allInstrs(fn, func(in ssa.Instruction) {
+				if found {
+					return
+				}
+				if _, ok := hookCall(owner, "remHook", in); ok {
+					found = true
+					return
+				}
+				if c := callOf(in); c != nil {
+					if f := c.StaticCallee(); f != nil {
+						if o2, ok := stateOwnerOf(a, f); ok && o2 == owner && has(f) {
+							found = true
+						}
+					}
+				}
+			})
+			return found
+		}
+		if !has(add) {
+			all = false
+		}
+	}
+	return all && n > 0
+}
